@@ -95,6 +95,15 @@ func TestProp_Entities(t *testing.T) {
 	adjRe := regexp.MustCompile(`(&[#0-9A-Za-z]*;?)(&|[0-9A-Za-z#])|[0-9A-Za-z#&]&[#0-9A-Za-z]+;`)
 	ev.Check(t, 60000, func(t *rapid.T) {
 		b := gen.Fragments(t, "frag", entFrags, 12)
+		if rapid.IntRange(0, 7).Draw(t, "overlong") == 0 {
+			// a numeric reference with more digits than a machine word holds (leading significant digits, then zeros)
+			ref := "&#x" + rapid.StringMatching(`[1-9a-f][0-9a-f]{0,3}`).Draw(t, "hi") + strings.Repeat("0", rapid.IntRange(8, 14).Draw(t, "zeros")) + rapid.StringMatching(`[0-9a-f]{1,4}`).Draw(t, "lo") + ";"
+			if rapid.Bool().Draw(t, "decimal") {
+				ref = "&#" + rapid.StringMatching(`[1-9][0-9]{0,2}`).Draw(t, "hi10") + strings.Repeat("0", rapid.IntRange(14, 19).Draw(t, "zeros10")) + rapid.StringMatching(`[0-9]{1,3}`).Draw(t, "lo10") + ";"
+			}
+			at := rapid.IntRange(0, len(b)).Draw(t, "at")
+			b = append(b[:at:at], append([]byte(ref), b[at:]...)...)
+		}
 		em, rev, mk := genMaps(t)
 		out := parse.ReplaceEntities(append([]byte(nil), b...), em, rev)
 		if len(out) > len(b) {
